@@ -65,6 +65,12 @@ func c13Pass(r *core.Rand, jitter bool) []c13Stmt {
 	add("delete", "DELETE FROM b WHERE k < 5", "wal")
 	add("select", "SELECT * FROM a", "")
 	add("join", "SELECT * FROM a JOIN b ON a.k = b.k", "")
+	// statements over hundreds of rows, parked early: a flusher that queued
+	// during the park gets in at whatever point the statement lets go of the
+	// store before it is complete
+	add("insert_multi", "INSERT INTO b VALUES "+rows(1000, 300), "dirty2")
+	add("update", "UPDATE b SET g = 7 WHERE k >= 1000", "dirty2")
+	add("delete", "DELETE FROM b WHERE k >= 1000", "dirty2")
 	// reload: switching databases closes the service and opens a new one, so
 	// the page cache is cold
 	add("other", "USE d2", "")
@@ -183,7 +189,7 @@ func parseRaceLogs(dir string) []raceReport {
 }
 
 func checkC13(c *core.Ctx) []core.Floor {
-	c.Rule = "one session goroutine against the REAL 100 ms flush goroutine. Each pass executes every statement kind {CREATE TABLE, INSERT single, INSERT multi-row (splitting), UPDATE, DELETE, SELECT scan, SELECT join} with placements {idle gap > 1 tick before and after, park of > 2 ticks at the statement's 2nd page change, park of > 2 ticks inside the log append, SELECT: park at a cache miss}, on fresh pages and after a reload (cold cache). (a) -race build: handlers only sleep on the session goroutine and add no synchronisation; every data-race report with mkdb frames is a violation (happens-before reasoning, independent of the observed timing). (b) plain build: every hook event is logged with its goroutine id; offline checker: no page or header write by a goroutine other than the session's between a statement's first page change and the completion of its log append (CREATE TABLE: its last page change). Distinct = (pass, statement, placement); non-trivial = the statement was actually held open (parked) across more than two timer periods."
+	c.Rule = "one session goroutine against the REAL 100 ms flush goroutine. Each pass executes every statement kind {CREATE TABLE, INSERT single, INSERT multi-row (splitting; also 300 rows), UPDATE and DELETE (also over 300 rows), SELECT scan, SELECT join} with placements {idle gap > 1 tick before and after, park of > 2 ticks at the statement's 2nd page change, park of > 2 ticks inside the log append, SELECT: park at a cache miss}, on fresh pages and after a reload (cold cache). (a) -race build: handlers only sleep on the session goroutine and add no synchronisation; every data-race report with mkdb frames is a violation (happens-before reasoning, independent of the observed timing). (b) plain build: every hook event is logged with its goroutine id; offline checker: no page or header write by a goroutine other than the session's between a statement's first page change and the completion of its log append (CREATE TABLE: its last page change). Distinct = (pass, statement, placement); non-trivial = the statement was actually held open (parked) across more than two timer periods."
 	c.Assume = []string{"a park of 230-400 ms spans at least two 100 ms ticks", "handlers of the race build run on the session goroutine only and share nothing with the flusher"}
 	passes := 2
 	if !core.Quick(c) {
